@@ -16,7 +16,7 @@ ID = "C15"
 LEVEL = "model_checking"
 RULE = (
     "curves: polygons triA, L, U in int / Fraction / float, circles of 4 and 8 quadratic arcs, quadratic lens, cubic blob, "
-    "mixed-degree rounded square; event menu (29): split at one node (first/last segment x {1/2, 1/3, 0.5, 1e-7, 1-1e-7, "
+    "mixed-degree rounded square; event menu (32): split at one node (first/last segment x {1/2, 1/3, 0.5, 1e-7, 1-1e-7, "
     "2e-6, 0, 1}), at two nodes of one segment (1/3,2/3; equal; 1e-17 apart; 5e-7 apart; floats; unsorted), on two segments, "
     "at three nodes, and clean(); all histories of depth <= 2 (thorough 3) breadth-first on the real code, states "
     "de-duplicated on the full representation. Invariant in every state: orientation and area preserved (exact for "
@@ -57,6 +57,10 @@ EVENTS = [
     ("split", [("first", "1/4"), ("first", "3/4"), ("last", "1/2")]),
     ("split", [("first", "1/3"), ("second", "1/3"), ("second", "2/3"), ("last", "1/2")]),
     ("split", [("last", "1/2"), ("second", "3/4"), ("second", "1/4"), ("first", "1/2"), ("first", "1/8")]),
+    # repeated / nearly equal nodes that are NOT adjacent in the caller's order
+    ("split", [("first", "1/2"), ("first", "1/4"), ("first", "1/2")]),
+    ("split", [("first", 0.5), ("first", 0.25), ("first", 0.5000001)]),
+    ("split", [("last", 0.5), ("first", "1/3"), ("last", 0.25), ("last", 0.5 + 1e-10)]),
     ("split", []),
     ("clean", []),
 ]
